@@ -144,3 +144,18 @@ package mount
 //@                      old(rCopyErr(fs, oldname, newname)) == nil,
 //@                      err == old(retW("hackpadfs.Remove", 0, rW4(fs, oldname, newname), rOM(fs, oldname), rOS(fs, oldname))))
 //@   nopanic
+
+// MountPoints lists exactly the mount table (the observation point of C06): every mount point once, nothing else.
+//@ func (fs *FS) MountPoints() (points []Point)
+//@   props C06
+//@   requires fs != nil
+//@   range 1 over fs.mounts visited V key k
+//@   range 1 invariant "shape" ref(points) == 0 || fresh(points)
+//@   range 1 ghost idx string->int k := len(points)
+//@   range 1 ghost src int->string len(points) := k
+//@   range 1 invariant "complete" forall(q, V, 0 <= gw("idx", q) && gw("idx", q) < len(points) && points[gw("idx", q)].Path == q)
+//@   range 1 invariant "sound" forall(i, 0, len(points), in(gw("src", i), V) && points[i].Path == gw("src", i) && gw("idx", gw("src", i)) == i)
+//@   ensures "each-mount-listed" [C06] forall(q, dom(fs.mounts), exists(i, 0, len(points), points[i].Path == q))
+//@   ensures "only-mounts" [C06] forall(i, 0, len(points), in(points[i].Path, dom(fs.mounts)))
+//@   ensures "distinct" [C06] forall(i, 0, len(points), forall(j, 0, i, points[i].Path != points[j].Path))
+//@   nopanic
